@@ -42,6 +42,22 @@ def derive_roots(F):
     return roots
 
 
+def writes_plain_field(F, place):
+    """the written place ends in a field (of one of the repository's own structs) whose declared type cannot hold a Value — e.g.
+    `(*select_state).start_time = Some(now)` through the `&mut SelectState` that `select_state.as_mut()` hands out: not a write to a GC root"""
+    fs = [e for e in place["pr"] if e[0] == "f"]
+    if not fs or not fs[-1][2] or str(fs[-1][2]).startswith("closure:"):
+        return False
+    try:
+        for f in F.variant_fields(fs[-1][2], fs[-1][3] if len(fs[-1]) > 3 else None):
+            if f["name"] == fs[-1][1]:
+                m = f.get("mentions") or []
+                return not (VALUE in m or "quiver_core::value::Binary" in m or "quiver_core::process::SelectState" in m or "quiver_core::process::Process" in m)
+    except Exception:
+        return False
+    return False
+
+
 def root_of(flow, c, roots):
     if c is None:
         return None
@@ -284,7 +300,8 @@ def audit(ctx):
                 # a &mut into the root is handed out: audit what is written through it
                 d = s.term["dest"]["l"]
                 derived = flow.forward({d}, through_calls=("Iterator::next", "Iterator::enumerate", "IntoIterator::into_iter", "Option::unwrap", "Option::expect", "Try::branch", "Option::ok_or"))
-                wr = [(b2, si2, s2) for b2, si2, s2 in body.stmts() if s2["k"] == "assign" and s2["p"]["l"] in derived and any(e[0] == "*" for e in s2["p"]["pr"])]
+                wr = [(b2, si2, s2) for b2, si2, s2 in body.stmts() if s2["k"] == "assign" and s2["p"]["l"] in derived and any(e[0] == "*" for e in s2["p"]["pr"])
+                      and not writes_plain_field(F, s2["p"])]
                 # only Value-typed element writes matter (frames.last_mut().counter etc. are not roots and never get here)
                 repl = [(b2, t2) for b2, t2 in body.calls() if call_matches(t2, ("mem::replace", "mem::take", "mem::swap")) and t2["args"] and (op_place(t2["args"][0]) or {}).get("l") in derived]
                 if not wr and not repl:
